@@ -105,7 +105,9 @@ pub enum Val {
     MatchRes { id: IdSpec, remaining: u64, complete: bool, txs: Vec<TxSpec>, filled: Vec<IdSpec> },
     Level(BookSpec),
     /// snapshot with arbitrary (possibly inconsistent) aggregate figures
-    Snapshot { book: BookSpec, vis: u64, hid: u64, count: u64 },
+    /// (`share` > 0: one entry of `orders` appears a second time as the same shared allocation,
+    /// right after the first for 1..=127, at the end of the list for 128..)
+    Snapshot { book: BookSpec, vis: u64, hid: u64, count: u64, #[serde(default)] share: u8 },
     Package(BookSpec),
     Stats([u64; 8]),
     /// a value, then the same value with some quantities changed (same ids), decoded one after the
@@ -284,7 +286,7 @@ pub fn val() -> BoxedStrategy<Val> {
         3 => (gen::id_spec(), gen::boundary_u64(), any::<bool>(), tx_list(5), id_list(5))
             .prop_map(|(id, remaining, complete, txs, filled)| Val::MatchRes { id, remaining, complete, txs, filled }),
         3 => book_spec(8).prop_map(Val::Level),
-        2 => (book_spec(6), gen::boundary_u64(), gen::boundary_u64(), gen::boundary_u64()).prop_map(|(book, vis, hid, count)| Val::Snapshot { book, vis, hid, count }),
+        2 => (book_spec(6), gen::boundary_u64(), gen::boundary_u64(), gen::boundary_u64(), prop_oneof![5 => Just(0u8), 1 => any::<u8>()]).prop_map(|(book, vis, hid, count, share)| Val::Snapshot { book, vis, hid, count, share }),
         2 => book_spec(6).prop_map(Val::Package),
         1 => book_spec(70).prop_map(Val::Level),
         1 => book_spec(70).prop_map(Val::Package),
@@ -414,6 +416,21 @@ fn damaged(s: &str) -> Vec<String> {
     vec![half, dropped.into_iter().collect(), tail.into_iter().collect()]
 }
 
+/// the orders of a book as snapshot entries; see `Val::Snapshot::share`
+pub fn shared_orders(book: &BookSpec, share: u8) -> Vec<Arc<OrderType<()>>> {
+    let mut v: Vec<Arc<OrderType<()>>> = book.build_orders().into_iter().map(Arc::new).collect();
+    if share > 0 && !v.is_empty() {
+        let i = (share as usize % 128) % v.len();
+        let a = v[i].clone();
+        if share < 128 {
+            v.insert(i + 1, a);
+        } else {
+            v.push(a);
+        }
+    }
+    v
+}
+
 fn text_rt<T: FromStr + std::fmt::Display>(x: &T) -> Result<(String, T), String>
 where
     T::Err: std::fmt::Display,
@@ -441,8 +458,8 @@ where
 }
 
 /// a writer that accepts `limit` bytes and then fails (a full disk, a closed socket)
-struct FailingWriter {
-    limit: usize,
+pub struct FailingWriter {
+    pub limit: usize,
 }
 
 impl std::io::Write for FailingWriter {
@@ -593,14 +610,14 @@ pub fn check_text(v: &Val) -> Result<(), String> {
             let (s, y) = text_rt(&x)?;
             same("PriceLevel", &s, &level_content(&x), &level_content(&y))
         }
-        Val::Snapshot { book, vis, hid, count } => {
+        Val::Snapshot { book, vis, hid, count, share } => {
             // summary text: price and aggregates
             let x = PriceLevelSnapshot {
                 price: book.price,
                 visible_quantity: *vis,
                 hidden_quantity: *hid,
                 order_count: *count as usize,
-                orders: book.build_orders().into_iter().map(Arc::new).collect(),
+                orders: shared_orders(book, *share),
             };
             let (s, y) = text_rt(&x)?;
             same(
@@ -697,13 +714,13 @@ pub fn check_json(v: &Val) -> Result<(), String> {
             }
             Ok(())
         }
-        Val::Snapshot { book, vis, hid, count } => {
+        Val::Snapshot { book, vis, hid, count, share } => {
             let x = PriceLevelSnapshot {
                 price: book.price,
                 visible_quantity: *vis,
                 hidden_quantity: *hid,
                 order_count: *count as usize,
-                orders: book.build_orders().into_iter().map(Arc::new).collect(),
+                orders: shared_orders(book, *share),
             };
             let (s, y) = json_rt(&x)?;
             let f = |z: &PriceLevelSnapshot| {
